@@ -48,7 +48,7 @@ def history(rng, nt, serial=False):
 
     for _ in range(nt):
         kind = rng.choice(["plain", "qa", "qsilent", "qerr", "cfg2", "cfg1", "cfgint", "cfgback", "edtext", "edtplain",
-                           "edtgap", "q24", "c24", "ev24", "unknown", "noframe", "strayback", "edtwrong", "edt24", "edtback"])
+                           "edtgap", "q24", "c24", "ev24", "unknown", "noframe", "strayback", "edtwrong", "edt24", "edtback", "cfgx24"])
         if kind == "plain":
             obs.append([t, "fwd", rng.choice(F["plain"]), 16])
         elif kind == "qa":
@@ -65,6 +65,10 @@ def history(rng, nt, serial=False):
             f = rng.choice(F["config"])
             obs.append([t, "fwd", f, 16]); gap(False)
             obs.append([t, "fwd", f, 16])
+        elif kind == "cfgx24":
+            f = rng.choice(F["config"])
+            obs.append([t, "fwd", f, 16]); gap(False)
+            obs.append([t, "fwd", f, 24])             # same payload bits, other frame length: not the repeat
         elif kind == "cfg1":
             obs.append([t, "fwd", rng.choice(F["config"]), 16]); gap(True)
         elif kind == "cfgint":
@@ -157,7 +161,9 @@ def systematic(tier):
     F = frames()
     alpha = [("fwd", F["plain"][0], 16), ("fwd", F["query"][0], 16), ("fwd", F["config"][0], 16), ("fwd", F["config"][1], 16),
              ("fwd", F["edt6"], 16), ("fwd", F["ext6q"], 16), ("fwd", F["q24"], 24), ("fwd", F["ev24"][0], 24),
-             ("back", 0x5A, 8), ("err", 0, 8), ("none", 0, 8)]
+             ("back", 0x5A, 8), ("err", 0, 8), ("none", 0, 8),
+             # a 24-bit frame whose report payload equals the zero-padded 16-bit configuration command
+             ("fwd", F["config"][0], 24)]
     L = 3 if tier == "quick" else 4
     out = []
     for ln in range(1, L + 1):
